@@ -393,3 +393,6 @@ def sample_of(case):
 
 def known_match(case, failure, entry):
     return False
+
+
+RULE += (" " + 'Class and name of stored tables are edited (VSsetclass/VSsetname with strings shorter, equal and longer than the current ones) and read back at once and after the final reopen.')
